@@ -87,6 +87,8 @@ pub struct Echo {
     args_os_n: u64,
     args: Vec<Option<Vec<u8>>>,
     args_n: u64,
+    /// (op, k, result) of the iterator-protocol record
+    iter_ops: Vec<(u8, u32, u32)>,
     lookups: Vec<(Vec<u8>, Look, Look)>,
     uid: u64,
     gid: u64,
@@ -161,6 +163,11 @@ pub fn parse(out: &[u8]) -> Result<Echo, String> {
         e.args.push(opt_bytes(it.next().unwrap().1).ok_or_else(|| bad("s"))?);
     }
     e.args_n = u64le(&take(&mut it, b'm')?).ok_or_else(|| bad("m"))?;
+    let ib = take(&mut it, b'i')?;
+    if ib.len() % 9 != 0 {
+        return Err(bad("i"));
+    }
+    e.iter_ops = ib.chunks(9).map(|c| (c[0], u32::from_le_bytes(c[1..5].try_into().unwrap()), u32::from_le_bytes(c[5..9].try_into().unwrap()))).collect();
     while it.peek().map(|r| r.0) == Some(b'K') {
         let k = it.next().unwrap().1.to_vec();
         let u = look(&take(&mut it, b'u')?).ok_or_else(|| bad("u"))?;
@@ -341,6 +348,41 @@ fn judge(case_argv: &[Vec<u8>], envp: &[Vec<u8>], keys: &[Vec<u8>], path: &str, 
                     break;
                 }
                 _ => {}
+            }
+        }
+        // the same iterators entered through nth / skip / last / count: what a plain slice iterator over the
+        // argument vector answers (only judged when the plain walk above was right)
+        if f.is_empty() {
+            const NONE: u32 = 0xffff_ffff;
+            const ERR: u32 = 0xffff_fffd;
+            let n = case_argv.len() as u32;
+            for &(op, k, got) in &e.iter_ops {
+                let os = op < 16;
+                let elem = |i: u32| -> u32 {
+                    if !os && std::str::from_utf8(&case_argv[i as usize]).is_err() {
+                        ERR
+                    } else {
+                        i
+                    }
+                };
+                let want = match op & 15 {
+                    0 => if k < n { elem(k) } else { NONE },
+                    1 | 2 => if k < n { elem(n - 1) } else { NONE },
+                    3 => n.saturating_sub(k),
+                    _ => if n > 0 { elem(n - 1) } else { NONE },
+                };
+                if got != want {
+                    let name = ["nth(k)", "skip(k).last()", "k x next() then last()", "k x next() then count()", "last()"][(op & 15).min(4) as usize];
+                    let show = |v: u32| match v {
+                        NONE => "None".to_string(),
+                        ERR => "Some(Err) (an argument that is not UTF-8)".to_string(),
+                        0xffff_fffe => "an element that is not one of the arguments".to_string(),
+                        i => format!("{i}"),
+                    };
+                    let kind = if want == NONE { "element after the end" } else if got == NONE { "element missing" } else { "wrong element" };
+                    f.push(Failure::new(format!("env::{}|{name}|{kind}", if os { "args_os" } else { "args" }), format!("[{mode}] {} {name} with k = {k} and {n} arguments: got {}, a slice iterator over the argument vector gives {} (elements by index; count() as a number)", if os { "args_os()" } else { "args()" }, show(got), show(want))));
+                    break;
+                }
             }
         }
         // aux values against the kernel's own record (/proc/self/auxv as read by the probe)
